@@ -345,6 +345,55 @@ CLAIMS["C19"]["technique"] += "; relational abstract interpretation (formatted-l
 CLAIMS["C16"]["note"] = CLAIMS["C16"]["note"].replace("the PARSENUM type-classification arithmetic, ", "")
 CLAIMS["C15"]["note"] = CLAIMS["C15"]["note"].replace("Not decided: termination; ", "Not decided: termination other than at end of stream input; ").replace("the command-line parser (C18); ", "the option parser beyond its bounds and pack cursor (C18); ")
 
+# Clauses added in round 5 (DESIGN.md 9.2, "After round 5").
+ROUND5 = {
+ "C01": "The block buffer, counter and chaining state of a hash context are touched only by that hash's own Init/Update/Pad/Final routines "
+        "(everything above the hash goes through its interface).",
+ "C02": "No assertion of the stream functions depends on the buffers' addresses or on the length (they are total over their data arguments).",
+ "C03": "Scratch regions handed to the transform's helpers are disjoint (the implementations differ in which scratch they overwrite).",
+ "C04": "Every access to the socket table is below the table's size and the cancellation reports 'unknown descriptor' on the size test only for a "
+        "number that is not below it (relational, the size as a ghost quantity); after a timer's time has been changed the heap is told on every path.",
+ "C05": "After a timer's time has been changed the heap is told on every path.",
+ "C06": "A descriptor is closed only when nothing is registered for it (interprocedural typestate over the connect code); a completed operation's "
+        "handle is dropped before anything can cancel through it; the registration's operation/slot/poll-bit mapping and the socket table's bounds "
+        "(events_network.c) are decided here too.",
+ "C07": "A completed transport operation's handle is dropped before anything can cancel through it.",
+ "C08": "A completed operation's handle (connect, read, write, immediate) is dropped before the failure path can cancel through it; the request object "
+        "keeps no pointer into the caller's request description except the body; nothing is registered for the descriptor when it is closed; realloc is "
+        "never asked for zero bytes.",
+ "C09": "The request object keeps no pointer into the caller's request description except the body (decided without relying on member names).",
+ "C10": "A length answered by BN_bn2bin / BN_num_bytes is not taken for a status (the number zero has length 0).",
+ "C11": "The entropy lengths reachable through instantiate() are {48} and through reseed() {32}, whatever the functions look like inside.",
+ "C12": "realloc is never asked for zero bytes (relational: every size handed to it is provably >= 1).",
+ "C13": "ptrheap_create's sift-down pass starts at or beyond the last node that has a child (2*start + 3 >= N for N >= 2, relational with floor "
+        "division and non-wrapping unsigned subtraction) and comes down one node at a time; after timerqueue_increase has stored the later time "
+        "every path passes ptrheap_increase.",
+ "C14": "Nothing that existed before the call is released on a path to a failure return in the event, timer and I/O units (delete-then-re-add is not "
+        "an update); realloc is never asked for zero bytes; no released pointer is used again after an allocation failure; an asynchronous read or "
+        "write whose registration cannot be renewed ends with one callback carrying -1 (callback linearity and re-arm rules of the transport units).",
+ "C15": "humansize_parse looks at no byte after its string's terminator (decided on the state machine extracted from its control-flow graph); no "
+        "released pointer is handed to a call, dereferenced or returned on any path of the parsers' units (aliases followed); a copy of strlen(s) "
+        "bytes into a character array leaves room for the terminator; a reset forgets the option parser's pack cursor.",
+ "C16": "The conversion functions store only EINVAL or ERANGE into errno (the library conversion's own ERANGE survives) and the ERANGE store is "
+        "reached on exactly the bound tests.",
+ "C17": "The base-64 and hex group arithmetic is decided for all inputs: one iteration of each codec loop is evaluated in a bit-provenance domain "
+        "(each bit of the accumulator is 0 or a named bit of a named input byte / table position) -- the encoder's four characters are RFC 4648's "
+        "sextets with '=' exactly where it pads, the decoder's three bytes are those of the four 6-bit values, unhexify's byte is the two digits' "
+        "nibbles, and every cursor and length advances by what was used (with the loop tests, the inductive step of 'decode(encode(x)) = x' over all "
+        "lengths); a \\u escape in a JSON name clears the match verdict before it rejoins the other escapes; the Unix path copied into sun_path "
+        "keeps its terminator.",
+ "C18": "The slot scan of searchopt is left only through its own test or the match's return.",
+ "C19": "Scratch regions of the HMAC helpers are disjoint and the hash context's internals are touched only by the hash's own routines.",
+}
+for _k, _v in ROUND5.items():
+    CLAIMS[_k]["text"] += " " + _v
+CLAIMS["C17"]["technique"] += "; abstract interpretation of the codec loops in a bit-provenance domain"
+CLAIMS["C17"]["note"] = CLAIMS["C17"]["note"].replace("round-trip equality of base-64/hex over all strings, ", "")
+CLAIMS["C15"]["note"] = CLAIMS["C15"]["note"].replace("; humansize_parse's string cursor (needs the correlation state == -1, see C16 for its arithmetic)", "")
+CLAIMS["C06"]["technique"] += "; interprocedural registration typestate"
+CLAIMS["C13"]["technique"] += "; relational abstract interpretation (build-heap extent)"
+CLAIMS["C04"]["technique"] += "; relational abstract interpretation with a ghost table size"
+
 NOT_APPLICABLE = {
 }
 
